@@ -36,6 +36,9 @@ var c16CondPositions = []string{
 	// operand positions behind another operand that may be missing from the item
 	"a BETWEEN %s AND :b", "a BETWEEN :a AND %s", "a IN (:a, %s)", "begins_with(a, %s)", "contains(a, %s)", "a = %s", "a < %s",
 	"a = :v OR %s = :v", "a <> :v OR attribute_exists(%s)", "NOT (a BETWEEN :a AND %s)",
+	// behind NOT on the side of an OR / AND that the other side may already have decided
+	"a = :v OR NOT %s = :v", "a = :v OR NOT contains(%s, :v)", "attribute_not_exists(zz) OR NOT (%s = :v)", "a = :v OR (NOT %s = :v)",
+	"a <> :v AND NOT %s = :v", "attribute_exists(zz) AND %s = :v", "NOT %s = :v OR a = :v", "NOT (NOT %s = :v)",
 }
 
 // c16Items: the items every placement is evaluated against (detection must
@@ -181,7 +184,7 @@ func exhaustiveReservedWords(t *testing.T, st *stats.Collector) {
 	st.SetExtra("exhaustive_subspace", "every reserved word x every bare-name position x {UPPER, lower, mIxed} (plus alias and near-reserved controls)")
 }
 
-const ruleC16 = "two parts. (1) Exhaustive: every word of the reserved list (573) x every bare-name position (27 condition positions: either side of a comparator, each function's path and operand arguments, every BETWEEN / IN operand, head of a dotted path, left of [i], under NOT / AND / OR / parentheses, behind an operand that is missing from the item; 9 update positions: SET / REMOVE / ADD / DELETE target, SET right-hand side, if_not_exists path, head of a nested target, second action, second clause; nested path elements unless the open finding F-RESNESTED applies) x {UPPER, lower, mIxed} x four evaluated items (attributes present, absent, of another type, and an item that holds an attribute spelled exactly like the word) must be rejected by interpreter.Language; the same word behind a #alias and near-reserved neighbours (WORD1, WORD_x, xWORD) must not be rejected as reserved. (2) rapid state machine through both SDK clients against the restriction oracle of the reference model: a reserved word used behind an alias and as a bare name on one table in either order; placeholder configurations (supplied vs used #names / :values with names that are prefixes of one another, unused, undefined, malformed keys incl. a key of the other map's form; carried by Scan, Put, Delete, Update, Get / Scan / Query projections and Query, including the continuation page of a well-formed Query with the same expression texts), key-condition shapes (valid: hash equality alone or AND one sort-key condition of = < <= > >= BETWEEN begins_with, either operand order, parenthesised; invalid: missing hash equality, hash inequality, OR, NOT, non-key attribute, two sort conditions, <>, contains, size, IN), write requests that are neither / both put and delete, batch sizes 0-30 over 1-3 tables: reject -> validation-class error or documented panic and no state change; accept -> no validation error. Non-trivial = every enumerated placement, and generated requests rejected for exactly one reason or accepted while containing a near-miss; distinct = hash of the request."
+const ruleC16 = "two parts. (1) Exhaustive: every word of the reserved list (573) x every bare-name position (35 condition positions: either side of a comparator, each function's path and operand arguments, every BETWEEN / IN operand, head of a dotted path, left of [i], under NOT / AND / OR / parentheses, behind NOT on the side of an OR / AND whose other side already decides the outcome, behind an operand that is missing from the item; 9 update positions: SET / REMOVE / ADD / DELETE target, SET right-hand side, if_not_exists path, head of a nested target, second action, second clause; nested path elements unless the open finding F-RESNESTED applies) x {UPPER, lower, mIxed} x four evaluated items (attributes present, absent, of another type, and an item that holds an attribute spelled exactly like the word) must be rejected by interpreter.Language; the same word behind a #alias and near-reserved neighbours (WORD1, WORD_x, xWORD) must not be rejected as reserved. (2) rapid state machine through both SDK clients against the restriction oracle of the reference model: a reserved word used behind an alias and as a bare name on one table in either order; placeholder configurations (supplied vs used #names / :values with names that are prefixes of one another, unused, undefined, malformed keys incl. a key of the other map's form; carried by Scan, Put, Delete, Update, Get / Scan / Query projections and Query, including the continuation page of a well-formed Query with the same expression texts), key-condition shapes (valid: hash equality alone or AND one sort-key condition of = < <= > >= BETWEEN begins_with, either operand order, parenthesised; invalid: missing hash equality, hash inequality, OR, NOT, non-key attribute, two sort conditions, <>, contains, size, IN), write requests that are neither / both put and delete, batch sizes 0-30 over 1-3 tables: reject -> validation-class error or documented panic and no state change; accept -> no validation error. Non-trivial = every enumerated placement, and generated requests rejected for exactly one reason or accepted while containing a near-miss; distinct = hash of the request."
 
 // TestC16 decides property C16.
 func TestC16(t *testing.T) {
